@@ -439,6 +439,14 @@ def surf_worker(part, job):
             if kind == "promolecule":
                 d = PromoleculeDensity((zs, pos))
                 box = d.bb()
+                if sep == seps[0]:
+                    # the first request this density object sees is one the API refuses (a level the field never reaches): it raises, and
+                    # the surface asked for afterwards from the SAME object is where it belongs
+                    try:
+                        S.promolecule_density_isosurface(d, isovalue=2000.0, sep=sep, smoothing=smoothing)
+                        part.count("refused_call_answered")
+                    except Exception:
+                        pass
                 iso = S.promolecule_density_isosurface(d, isovalue=param, sep=sep, smoothing=smoothing)
                 f_at = (lambda v: np.asarray(d.rho(v), dtype=float))
                 out_pts = np.zeros((0, 3))
@@ -468,6 +476,12 @@ def surf_worker(part, job):
                 if (ra / (ra + rb) >= param - 0.02).any():
                     part.skip("stockholder weight on the sampling-box faces not below the isovalue")
                     return
+                if sep == seps[0]:
+                    try:
+                        S.stockholder_weight_isosurface(s, isovalue=1.5, sep=sep, smoothing=smoothing)
+                        part.count("refused_call_answered")
+                    except Exception:
+                        pass
                 iso = S.stockholder_weight_isosurface(s, isovalue=param, sep=sep, smoothing=smoothing)
                 f_at = (lambda v: np.asarray(s.weights(np.asarray(v, dtype=np.float32)), dtype=float))
                 out_pts = ext
